@@ -26,12 +26,46 @@ def _eq(a, b):
     return all((x == y) or (x is None and y is None) for x, y in zip(a.reshape(-1), b.reshape(-1)))
 
 
+def _close(a, b, tol=1e-13):
+    """equality up to the last bits: NumPy's vectorised loops may round differently depending on the
+    alignment of an array, and a list is converted into a *new* array, so two requests for the same
+    points are never compared bit-for-bit (lesson of C06)"""
+    a, b = np.asarray(a), np.asarray(b)
+    if a.shape != b.shape:
+        return False
+    if a.dtype.kind in 'fc' and b.dtype.kind in 'fc':
+        with np.errstate(all='ignore'):
+            same = (a == b) | (np.isnan(a) & np.isnan(b)) | (np.abs(a - b) <= tol * np.maximum(np.abs(a), np.abs(b)))
+        return bool(np.all(same))
+    return _eq(a, b)
+
+
 def _table():
     try:
         rows = json.load(open(GEN))['Tables']['rows']
     except Exception:
         return {}
     return {r['path']: r for r in rows}
+
+
+REDRAWS = 6
+
+
+def _draws(call):
+    """evaluate `call()` (which draws its own random request); a ValueError -- the solver's documented
+    way of rejecting a request outside its domain -- means "this draw is no data": draw again"""
+    for attempt in range(REDRAWS):
+        try:
+            return call()
+        except ValueError:
+            if attempt == REDRAWS - 1:
+                raise
+
+
+def _mentions(message, name):
+    """does the message name this parameter (as a whole word)?"""
+    import re
+    return re.search(r'(?<![A-Za-z0-9_])' + re.escape(name) + r'(?![A-Za-z0-9_])', message) is not None
 
 
 def contract(rng, deep):
@@ -85,7 +119,13 @@ def contract(rng, deep):
                         orig(self, verbose=verbose, **params)
                         item['real'] = 'ok'
                     except ValueError as ex:
-                        item['real'] = 'unknown' if 'Unknown parameters' in str(ex) else 'missing:' + str(ex).split(': ')[-1]
+                        # the contract is the exception type and the offending name, not the wording
+                        item['real'] = 'ValueError'
+                        item['message'] = str(ex)
+                        raise
+                    except Exception as ex:
+                        item['real'] = type(ex).__name__        # never the model's outcome: reported as a mismatch
+                        item['message'] = str(ex)
                         raise
                 _base.ExactSolver.__init__ = spy
                 try:
@@ -100,7 +140,7 @@ def contract(rng, deep):
                     lines.append('base.construct %s %s %s' % (','.join(item['declared']) or '-',
                                                                ','.join(item['defaulted']) or '-',
                                                                ','.join(item['given']) or '-'))
-                    expect.append((path, given, item['real']))
+                    expect.append((path, given, item['real'], item.get('message', ''), list(item['declared']), list(item['given'])))
                 count('construct')
                 if any(g not in declared for g in given) and whole != 'ValueError':
                     fail(path, 'unknown-keyword', 'unknown parameter name gave %s, not ValueError' % whole,
@@ -123,7 +163,7 @@ def contract(rng, deep):
                 kmin = {q: v for q, v in base_kw.items() if q in required or q == 'geometry' and e.dim > 1}
                 try:
                     smin = c(*args, **kmin)
-                    smin(e.points(rng, max(e.min_n, 3)), e.t(rng))
+                    _draws(lambda: smin(e.points(rng, max(e.min_n, 3)), e.t(rng)))
                     count('minimal-keywords')
                 except Exception as ex:
                     if path.split(':')[1] != 'PlanarCog14':
@@ -147,16 +187,27 @@ def contract(rng, deep):
             if e.grid:
                 continue
             nmax = 4 if e.slow else (40 if deep else 12)
-            n = rng.randint(max(e.min_n, 3 if e.dim > 1 else 1), nmax)
-            pts = e.points(rng, n)
-            t = e.t(rng)
-            keep = pts.copy()
-            case = dict(kwargs={k: (v if isinstance(v, (int, float, str, bool)) else repr(v)) for k, v in kw.items()},
-                        points=pts.tolist(), t=t)
-            try:
-                sol = s(pts, t)
-            except Exception as ex:
-                fail(path, 'call', 'catalogue call raised %s: %s' % (type(ex).__name__, str(ex)[:120]), case)
+            sol = None
+            for attempt in range(REDRAWS):
+                n = rng.randint(max(e.min_n, 3 if e.dim > 1 else 1), nmax)
+                pts = e.points(rng, n)
+                t = e.t(rng)
+                keep = pts.copy()
+                case = dict(kwargs={k: (v if isinstance(v, (int, float, str, bool)) else repr(v)) for k, v in kw.items()},
+                            points=pts.tolist(), t=t)
+                try:
+                    sol = s(pts, t)
+                    break
+                except ValueError as ex:
+                    # a documented rejection of this particular draw (a domain that depends on the batch,
+                    # e.g. EPpiston's xmax = max of the points): draw again; only a class that rejects
+                    # every draw fails the `call` aspect
+                    if attempt == REDRAWS - 1:
+                        fail(path, 'call', 'catalogue call raised %s: %s' % (type(ex).__name__, str(ex)[:120]), case)
+                except Exception as ex:
+                    fail(path, 'call', 'catalogue call raised %s: %s' % (type(ex).__name__, str(ex)[:120]), case)
+                    break
+            if sol is None:
                 continue
             count('call')
             st['distinct_nontrivial'] += 1
@@ -181,7 +232,7 @@ def contract(rng, deep):
                     s2, _ = catalog.build(path, c, rng) if False else (s, None)
                     sol2 = s2(conv(pts), t)
                     count('container')
-                    if list(sol2.dtype.names) != names or any(not _eq(sol[nm], sol2[nm]) for nm in names):
+                    if list(sol2.dtype.names) != names or any(not _close(sol[nm], sol2[nm]) for nm in names):
                         fail(path, 'container-' + kind, 'result differs from the ndarray call', case)
                 except Exception as ex:
                     fail(path, 'container-' + kind, '%s input raised %s: %s' % (kind, type(ex).__name__, str(ex)[:100]), case)
@@ -245,12 +296,23 @@ def contract(rng, deep):
                 fail(path, 'csv-roundtrip', 'dump/read raised %s: %s' % (type(ex).__name__, str(ex)[:100]), case)
         # ---- the hand model of ExactSolver.__init__ vs the real constructors ---------------
         outs = lean_io.run_lines(lines)
-        for out, (path, given, real) in zip(outs, expect):
+        for out, (path, given, real, message, decl, received) in zip(outs, expect):
             count('construct-model')
             model = out.strip()
-            if model != real:
+            if model == 'ok' or real == 'ok':
+                same = model == real
+            elif model == 'unknown':
+                # rejected for a keyword that is not declared: the message names (at least) one of them
+                same = real == 'ValueError' and any(_mentions(message, g) for g in received if g not in decl)
+            elif model.startswith('missing:'):
+                # rejected for a declared parameter without a value: the message names the first one (the
+                # model's), possibly among others
+                same = real == 'ValueError' and _mentions(message, model[len('missing:'):])
+            else:
+                same = False
+            if not same:
                 st['mismatches'].append(dict(why='ExactSolver.__init__ outcome differs from the model', cls=path,
-                                             given=given, model=model, code=real))
+                                             given=given, model=model, code=real, message=message[:120]))
     return st
 
 
